@@ -169,16 +169,123 @@ class Translator:
         return skip
 
     # ------------------------------------------------------------ FEMData.save
-    def path_name(self, n, env):
-        """dir_name / 'const' (or a local bound to it) -> const"""
+    # The statements are read by meaning, not spelling: string constants bound at module or
+    # class level are resolved, locals bound to `dir / 'name'` are followed, and calls of
+    # helpers (methods of FEMData or module-level functions whose body is again inside this
+    # grammar) are inlined with their parameters bound to the caller's directory / paths / flag.
+    def constants(self):
+        """NAME = 'string' at module level and at FEMData class level"""
+        if getattr(self, '_consts', None) is None:
+            src, tree = self.load('femio/fem_data.py')
+            out = {}
+            bodies = [tree.body, find_class(tree, 'FEMData').body]
+            for body in bodies:
+                for st in body:
+                    if isinstance(st, ast.Assign) and len(st.targets) == 1 and \
+                            isinstance(st.targets[0], ast.Name) and isinstance(st.value, ast.Constant) \
+                            and isinstance(st.value.value, str):
+                        nm = st.targets[0].id
+                        if nm in out and out[nm] != st.value.value:
+                            raise TranslateError(f'constant {nm} bound twice')
+                        out[nm] = st.value.value
+            # a constant that is re-bound anywhere else is not a constant
+            for n in ast.walk(tree):
+                if isinstance(n, (ast.Assign, ast.AugAssign, ast.AnnAssign)):
+                    tg = n.targets if isinstance(n, ast.Assign) else [n.target]
+                    for t in tg:
+                        for x in ast.walk(t):
+                            if isinstance(x, ast.Name) and x.id in out and not any(n in b for b in bodies):
+                                del out[x.id]
+            self._consts = out
+        return self._consts
+
+    def const_str(self, n):
+        """string denoted by a constant expression (literal, module / class constant)"""
+        if isinstance(n, ast.Constant) and isinstance(n.value, str):
+            return n.value
+        if isinstance(n, ast.Name) and n.id in self.constants():
+            return self.constants()[n.id]
+        if isinstance(n, ast.Attribute) and isinstance(n.value, ast.Name) and \
+                n.value.id in ('self', 'cls', 'FEMData') and n.attr in self.constants():
+            return self.constants()[n.attr]
+        return None
+
+    def helper(self, func):
+        """FunctionDef of a helper called as self.f / cls.f / FEMData.f / f, with the number of
+        implicit leading parameters"""
+        src, tree = self.load('femio/fem_data.py')
+        fn = None
+        if isinstance(func, ast.Attribute) and isinstance(func.value, ast.Name) and \
+                func.value.id in ('self', 'cls', 'FEMData'):
+            cls = find_class(tree, 'FEMData')
+            for n in cls.body:
+                if isinstance(n, ast.FunctionDef) and n.name == func.attr:
+                    fn = n
+            if fn is None:
+                return None, 0
+            decos = [ast.unparse(d) for d in fn.decorator_list]
+            if decos == ['staticmethod']:
+                implicit = 0
+            elif decos == ['classmethod'] or decos == []:
+                implicit = 1
+            else:
+                raise TranslateError(f'helper {fn.name}: unsupported decorator')
+        elif isinstance(func, ast.Name):
+            for n in tree.body:
+                if isinstance(n, ast.FunctionDef) and n.name == func.id:
+                    fn = n
+            implicit = 0
+            if fn is None:
+                return None, 0
+        else:
+            return None, 0
+        self.note('femio/fem_data.py', fn, src)
+        return fn, implicit
+
+    def bind_call(self, fn, implicit, call, sc):
+        """scope of the helper's body: each parameter is the directory, a path, or the flag"""
+        a = fn.args
+        if a.vararg or a.kwarg or a.kwonlyargs or a.posonlyargs:
+            raise TranslateError(f'helper {fn.name}: unsupported signature')
+        params = [x.arg for x in a.args][implicit:]
+        if len(a.defaults) > 0:
+            raise TranslateError(f'helper {fn.name}: default arguments')
+        actual = {}
+        if len(call.args) > len(params):
+            raise TranslateError(f'helper {fn.name}: too many arguments')
+        for pn, v in zip(params, call.args):
+            actual[pn] = v
+        for kw in call.keywords:
+            if kw.arg is None or kw.arg not in params or kw.arg in actual:
+                raise TranslateError(f'helper {fn.name}: unsupported keyword argument')
+            actual[kw.arg] = kw.value
+        if set(actual) != set(params):
+            raise TranslateError(f'helper {fn.name}: missing arguments')
+        new = {'dirs': set(), 'env': {}, 'flags': set(), 'depth': sc['depth'] + 1}
+        if new['depth'] > 3:
+            raise TranslateError('helper calls nested too deeply')
+        for pn, v in actual.items():
+            if isinstance(v, ast.Name) and v.id in sc['dirs']:
+                new['dirs'].add(pn)
+            elif isinstance(v, ast.Name) and v.id in sc['flags']:
+                new['flags'].add(pn)
+            else:
+                new['env'][pn] = self.path_name(v, sc)
+        return new
+
+    def path_name(self, n, sc):
+        """dir / 'const' (or a local / parameter bound to it) -> const"""
+        env = sc['env'] if isinstance(sc, dict) and 'env' in sc else sc
+        dirs = sc['dirs'] if isinstance(sc, dict) and 'dirs' in sc else {'dir_name'}
         if isinstance(n, ast.Name) and n.id in env:
             return env[n.id]
-        if isinstance(n, ast.BinOp) and isinstance(n.op, ast.Div) and is_name(n.left, 'dir_name') \
-                and isinstance(n.right, ast.Constant) and isinstance(n.right.value, str):
-            s = n.right.value
-            if '/' in s or s in ('', '.', '..'):
-                raise TranslateError(f'unexpected file name {s!r}')
-            return s
+        if isinstance(n, ast.BinOp) and isinstance(n.op, ast.Div) and isinstance(n.left, ast.Name) \
+                and n.left.id in dirs:
+            s = self.const_str(n.right)
+            if s is not None:
+                if '/' in s or s in ('', '.', '..'):
+                    raise TranslateError(f'unexpected file name {s!r}')
+                return s
         raise TranslateError(f'unexpected path expression {ast.unparse(n)}')
 
     @staticmethod
@@ -192,62 +299,89 @@ class Translator:
         pre, suf = pat.split('*')
         return pre, suf
 
-    def save_block(self, body, mesh_only, env, classes, steps):
+    def flag_test(self, t, sc):
+        """-> True / False when t is `flag` / `not flag`, else None"""
+        if isinstance(t, ast.Name) and t.id in sc['flags']:
+            return True
+        if isinstance(t, ast.UnaryOp) and isinstance(t.op, ast.Not) and isinstance(t.operand, ast.Name) \
+                and t.operand.id in sc['flags']:
+            return False
+        return None
+
+    def is_dir(self, n, sc):
+        return isinstance(n, ast.Name) and n.id in sc['dirs']
+
+    def save_block(self, body, mesh_only, sc, classes, steps):
         """returns True when the block returned"""
+        if not isinstance(sc, dict) or 'dirs' not in sc:
+            sc = {'dirs': {'dir_name'}, 'env': sc, 'flags': {'save_mesh_only'}, 'depth': 0}
         for st in body:
+            if isinstance(st, ast.Pass):
+                continue
             # dir_name = Path(dir_name)
-            if isinstance(st, ast.Assign) and len(st.targets) == 1 and is_name(st.targets[0], 'dir_name'):
-                if dump(st.value) != "Call(func=Name(id='Path', ctx=Load()), args=[Name(id='dir_name', ctx=Load())], keywords=[])":
-                    raise TranslateError(f'save: {ast.unparse(st)}')
+            if isinstance(st, ast.Assign) and len(st.targets) == 1 and isinstance(st.targets[0], ast.Name) \
+                    and isinstance(st.value, ast.Call) and is_name(st.value.func, 'Path') \
+                    and len(st.value.args) == 1 and not st.value.keywords and self.is_dir(st.value.args[0], sc):
+                sc['dirs'].add(st.targets[0].id)
                 continue
             # local = dir_name / 'x'
             if isinstance(st, ast.Assign) and len(st.targets) == 1 and isinstance(st.targets[0], ast.Name):
-                env[st.targets[0].id] = self.path_name(st.value, env)
+                nm = st.targets[0].id
+                if nm in sc['dirs'] or nm in sc['flags']:
+                    raise TranslateError(f'save: {ast.unparse(st)}')
+                sc['env'][nm] = self.path_name(st.value, sc)
                 continue
             if isinstance(st, ast.Return):
-                if st.value is not None:
+                if st.value is not None and not (isinstance(st.value, ast.Constant) and st.value.value is None):
                     raise TranslateError('save returns a value')
                 return True
             if isinstance(st, ast.If):
                 t = st.test
-                # if save_mesh_only:
-                if is_name(t, 'save_mesh_only'):
-                    blk = st.body if mesh_only else st.orelse
-                    if self.save_block(blk, mesh_only, env, classes, steps):
+                # if save_mesh_only: / if not save_mesh_only:
+                ft = self.flag_test(t, sc)
+                if ft is not None:
+                    blk = st.body if (mesh_only == ft) else st.orelse
+                    if self.save_block(blk, mesh_only, sc, classes, steps):
                         return True
                     continue
                 # if not dir_name.exists(): dir_name.mkdir(...)
-                if dump(t) == "UnaryOp(op=Not(), operand=Call(func=Attribute(value=Name(id='dir_name', ctx=Load()), attr='exists', ctx=Load()), args=[], keywords=[]))" \
+                if isinstance(t, ast.UnaryOp) and isinstance(t.op, ast.Not) and isinstance(t.operand, ast.Call) \
+                        and isinstance(t.operand.func, ast.Attribute) and t.operand.func.attr in ('exists', 'is_dir') \
+                        and self.is_dir(t.operand.func.value, sc) and not t.operand.args \
                         and len(st.body) == 1 and not st.orelse and isinstance(st.body[0], ast.Expr) \
                         and isinstance(st.body[0].value, ast.Call) \
-                        and dump(st.body[0].value.func) == "Attribute(value=Name(id='dir_name', ctx=Load()), attr='mkdir', ctx=Load())":
+                        and isinstance(st.body[0].value.func, ast.Attribute) \
+                        and st.body[0].value.func.attr == 'mkdir' \
+                        and self.is_dir(st.body[0].value.func.value, sc):
                     continue
                 # if P.exists(): P.unlink()
                 if isinstance(t, ast.Call) and isinstance(t.func, ast.Attribute) and t.func.attr in ('exists', 'is_file') \
                         and not t.args and not t.keywords and len(st.body) == 1 and not st.orelse:
-                    p = self.path_name(t.func.value, env)
+                    p = self.path_name(t.func.value, sc)
                     b = st.body[0]
                     if isinstance(b, ast.Expr) and isinstance(b.value, ast.Call) and \
                             isinstance(b.value.func, ast.Attribute) and b.value.func.attr == 'unlink' \
-                            and not b.value.args and self.path_name(b.value.func.value, env) == p:
+                            and not b.value.args and self.path_name(b.value.func.value, sc) == p:
                         steps.append(('SRm', p))
                         continue
                 raise TranslateError(f'save: unsupported if: {ast.unparse(t)}')
             if isinstance(st, ast.For):
                 # for v in [sorted(]dir_name.glob('pat')[)]: v.unlink()
                 it = st.iter
-                if isinstance(it, ast.Call) and is_name(it.func, 'sorted') and len(it.args) == 1 and not it.keywords:
+                if isinstance(it, ast.Call) and isinstance(it.func, ast.Name) and it.func.id in ('sorted', 'list') \
+                        and len(it.args) == 1 and not it.keywords:
                     it = it.args[0]
                 if isinstance(st.target, ast.Name) and isinstance(it, ast.Call) and \
-                        dump(it.func) == "Attribute(value=Name(id='dir_name', ctx=Load()), attr='glob', ctx=Load())" \
-                        and len(it.args) == 1 and isinstance(it.args[0], ast.Constant) \
-                        and isinstance(it.args[0].value, str) and not st.orelse and len(st.body) == 1:
+                        isinstance(it.func, ast.Attribute) and it.func.attr == 'glob' \
+                        and self.is_dir(it.func.value, sc) \
+                        and len(it.args) == 1 and self.const_str(it.args[0]) is not None \
+                        and not it.keywords and not st.orelse and len(st.body) == 1:
                     b = st.body[0]
                     v = st.target.id
                     if isinstance(b, ast.Expr) and isinstance(b.value, ast.Call) and \
                             isinstance(b.value.func, ast.Attribute) and b.value.func.attr == 'unlink' \
                             and is_name(b.value.func.value, v) and not b.value.args:
-                        pre, suf = self.glob_parts(it.args[0].value)
+                        pre, suf = self.glob_parts(self.const_str(it.args[0]))
                         steps.append(('SRmGlob', pre, suf))
                         continue
                 raise TranslateError(f'save: unsupported loop: {ast.unparse(st)[:80]}')
@@ -256,6 +390,9 @@ class Translator:
                 f = c.func
                 if is_name(f, 'print'):
                     continue
+                # dir_name.mkdir(parents=True, exist_ok=True)
+                if isinstance(f, ast.Attribute) and f.attr == 'mkdir' and self.is_dir(f.value, sc):
+                    continue
                 # self.<member>.save(P)
                 if isinstance(f, ast.Attribute) and f.attr == 'save' and is_self_attr(f.value) \
                         and len(c.args) == 1 and not c.keywords:
@@ -263,22 +400,28 @@ class Translator:
                     if m not in COMP_OF_MEMBER or m == 'settings':
                         raise TranslateError(f'save: unknown member self.{m}')
                     skip = self.member_save(classes[m]) and m not in self.never_empty
-                    steps.append(('SWr', self.npz(self.path_name(c.args[0], env)), COMP_OF_MEMBER[m], skip))
+                    steps.append(('SWr', self.npz(self.path_name(c.args[0], sc)), COMP_OF_MEMBER[m], skip))
                     continue
                 # np.savez(P, **self.settings)
                 if dump(f) == "Attribute(value=Name(id='np', ctx=Load()), attr='savez', ctx=Load())" \
                         and len(c.args) == 1 and len(c.keywords) == 1 and c.keywords[0].arg is None \
                         and is_self_attr(c.keywords[0].value, 'settings'):
-                    steps.append(('SWr', self.npz(self.path_name(c.args[0], env)), 'CSettings', False))
+                    steps.append(('SWr', self.npz(self.path_name(c.args[0], sc)), 'CSettings', False))
                     continue
                 # P.touch() / P.unlink(missing_ok=True)
                 if isinstance(f, ast.Attribute) and f.attr == 'touch' and not c.args and not c.keywords:
-                    steps.append(('STouch', self.path_name(f.value, env)))
+                    steps.append(('STouch', self.path_name(f.value, sc)))
                     continue
                 if isinstance(f, ast.Attribute) and f.attr == 'unlink' and not c.args and \
                         len(c.keywords) == 1 and c.keywords[0].arg == 'missing_ok' and \
                         isinstance(c.keywords[0].value, ast.Constant) and c.keywords[0].value.value is True:
-                    steps.append(('SRm', self.path_name(f.value, env)))
+                    steps.append(('SRm', self.path_name(f.value, sc)))
+                    continue
+                # a helper whose body is inside this grammar: inlined
+                fn, implicit = self.helper(f)
+                if fn is not None and fn.name != 'save':
+                    inner = self.bind_call(fn, implicit, c, sc)
+                    self.save_block(strip_doc(fn.body), mesh_only, inner, classes, steps)
                     continue
             raise TranslateError(f'save: unsupported statement: {ast.unparse(st)[:100]}')
         return False
@@ -298,6 +441,25 @@ class Translator:
             self.save_block(strip_doc(fn.body), mesh_only, {}, classes, steps)
             out[mesh_only] = steps
         return out[False], out[True], classes
+
+    def exists_name(self, n, sc=None, depth=0):
+        """file whose existence the expression tests: `(dir / F).exists()` / `.is_file()`, or a
+        call of a helper that returns such an expression of its parameter"""
+        sc = sc or {'dirs': {'dir_name'}, 'env': {}, 'flags': set(), 'depth': 0}
+        if isinstance(n, ast.Call) and isinstance(n.func, ast.Attribute) and n.func.attr in ('exists', 'is_file') \
+                and not n.args and not n.keywords:
+            try:
+                return self.path_name(n.func.value, sc)
+            except TranslateError:
+                return None
+        if isinstance(n, ast.Call) and depth < 3:
+            fn, implicit = self.helper(n.func)
+            if fn is not None:
+                body = strip_doc(fn.body)
+                if len(body) == 1 and isinstance(body[0], ast.Return) and body[0].value is not None:
+                    inner = self.bind_call(fn, implicit, n, sc)
+                    return self.exists_name(body[0].value, inner, depth + 1)
+        return None
 
     # ------------------------------------------------------------ read_directory
     def translate_read(self):
@@ -324,11 +486,10 @@ class Translator:
                     else:
                         raise TranslateError(f'read_directory: unsupported test {ast.unparse(st.test)}')
                 a, b = vals
-                if is_name(a, 'read_npy') and isinstance(b, ast.Call) and isinstance(b.func, ast.Attribute) \
-                        and b.func.attr == 'exists' and not b.args:
+                if is_name(a, 'read_npy') and self.exists_name(b) is not None:
                     if read_sent is not None:
                         raise TranslateError('read_directory: two cache tests')
-                    read_sent = self.path_name(b.func.value, {})
+                    read_sent = self.exists_name(b)
                     last = st.body[-1]
                     ok = isinstance(last, ast.Return) and isinstance(last.value, ast.Call) and \
                         dump(last.value.func) == "Attribute(value=Name(id='cls', ctx=Load()), attr='read_npy_directory', ctx=Load())" \
@@ -342,11 +503,10 @@ class Translator:
                     pos_load = i
                     continue
                 if is_name(a, 'save') and isinstance(b, ast.UnaryOp) and isinstance(b.op, ast.Not) and \
-                        isinstance(b.operand, ast.Call) and isinstance(b.operand.func, ast.Attribute) and \
-                        b.operand.func.attr == 'exists' and not b.operand.args:
+                        self.exists_name(b.operand) is not None:
                     if resave_sent is not None:
                         raise TranslateError('read_directory: two re-save tests')
-                    resave_sent = self.path_name(b.operand.func.value, {})
+                    resave_sent = self.exists_name(b.operand)
                     if len(st.body) != 1 or st.orelse or dump(st.body[0]) != \
                             "Expr(value=Call(func=Attribute(value=Name(id='obj', ctx=Load()), attr='save', ctx=Load()), args=[Name(id='dir_name', ctx=Load())], keywords=[]))":
                         raise TranslateError('read_directory: unexpected body of the re-save test')
@@ -417,6 +577,13 @@ class Translator:
                             isinstance(st.value.func, ast.Attribute) and st.value.func.attr == 'update' and \
                             isinstance(st.value.func.value, ast.Attribute) and is_name(st.value.func.value.value, 'obj'):
                         comp = COMP_OF_MEMBER.get(st.value.func.value.attr)
+                    elif isinstance(st, ast.Expr) and isinstance(st.value, ast.Call):
+                        # a helper that is handed the member it fills and the file it fills it from:
+                        # helper(obj.<member>, dict_files['stem'])
+                        members = {a.attr for a in ast.walk(st) if isinstance(a, ast.Attribute)
+                                   and is_name(a.value, 'obj') and a.attr in COMP_OF_MEMBER}
+                        if len(members) == 1:
+                            comp = COMP_OF_MEMBER[members.pop()]
                     if comp is None:
                         raise TranslateError(f'read_npy_directory: cannot classify {ast.unparse(st)[:80]}')
                     if comp in names and names[comp] != stem:
@@ -469,9 +636,13 @@ class Translator:
 
 def translate(repo):
     t = Translator(repo)
-    full, mesh, classes = t.translate_save()
-    read_sent, resave_sent = t.translate_read()
-    names, pat = t.translate_load()
+    try:
+        full, mesh, classes = t.translate_save()
+        read_sent, resave_sent = t.translate_read()
+        names, pat = t.translate_load()
+    except TranslateError as e:
+        e.consumed = dict(t.consumed)       # regions read so far (for the evidence)
+        raise
     cfg = {'steps_full': full, 'steps_mesh': mesh, 'read_sentinel': read_sent,
            'resave_sentinel': resave_sent, 'load_names': names, 'glob': pat,
            'resave_mesh_read': t.resave_mesh_read,
@@ -489,11 +660,16 @@ def step_coq(s):
     raise AssertionError(s)
 
 
-def emit(cfg):
+def emit(cfg, origin=None):
     def steps(l):
         return '[' + ';\n     '.join(step_coq(s) for s in l) + ']'
     names = '[' + ';\n     '.join(f'({c}, {coq_str(f)})' for c, f in cfg['load_names']) + ']'
-    return f'''(* GENERATED by /verif/translate/c05_effects.py from the tree under test - do not edit.
+    head = 'GENERATED by /verif/translate/c05_effects.py from the tree under test - do not edit.'
+    if origin:
+        head = ('BASELINE configuration (translate/c05_baseline.json, read from the registered tree): the '
+                'translator\n   could not read the tree under test (' + origin.replace('*)', '* )').replace('(*', '( *').split('\n')[0][:300] +
+                ').\n   Hand model of this run; tied by the widened correspondence.')
+    return f'''(* {head}
    File effects of FEMData.save, sentinel tests of read_directory, files
    looked up by read_npy_directory. *)
 From Coq Require Import String List.
